@@ -939,6 +939,7 @@ struct Counters {
     transitions: AtomicU64,
     setup_failed: AtomicU64,
     lenient: AtomicU64,
+    stale_trees: AtomicU64,
 }
 
 /// readonly()/secure() on a one-entry fixture
@@ -1327,10 +1328,58 @@ fn memfs_transition(pre_fs: &Memfs, pre_dump: &Dump, pre: &Tree, path: &str, op:
     (None, Some((fs, post)))
 }
 
+thread_local! {
+    /// build the initial Memfs so that every link records the *other* kind than its target has now
+    static STALE: std::cell::Cell<bool> = const { std::cell::Cell::new(false) };
+}
+
+/// The same tree, reached through a history after which the kind a link recorded at its creation is stale:
+/// every link target that is a regular file or an empty directory had the other kind while the links were
+/// made and was re-created as what the tree says afterwards. None when the tree has no such target.
+fn materialize_memfs_stale(tree: &Tree) -> Result<Option<Memfs>, String> {
+    let mut targets: Vec<String> = vec![];
+    for n in tree.nodes.values() {
+        if let Kind::Link(t) = &n.kind {
+            if let Some(tn) = tree.nodes.get(t) {
+                let flippable = tn.is_file() || (tn.is_dir() && tree.children(t).is_empty());
+                if flippable && !targets.contains(t) {
+                    targets.push(t.clone());
+                }
+            }
+        }
+    }
+    if targets.is_empty() {
+        return Ok(None);
+    }
+    let mut flipped = tree.clone();
+    for t in &targets {
+        let n = if tree.nodes[t].is_file() { Node::dir() } else { Node::file(b"") };
+        flipped.insert(t, n);
+    }
+    let fs = materialize_memfs(&flipped, "/")?;
+    let e = |x: RvError| x.to_string();
+    for t in &targets {
+        let n = &tree.nodes[t];
+        fs.remove(t).map_err(e)?;
+        match &n.kind {
+            Kind::File(d) => {
+                fs.write_all(t, d).map_err(e)?;
+                fs.chmod_b(t).map_err(e)?.no_recurse().all(n.mode).exec().map_err(e)?;
+            },
+            _ => {
+                fs.mkdir_m(t, n.mode).map_err(e)?;
+            },
+        }
+    }
+    Ok(Some(fs))
+}
+
 /// Breadth-first exploration from one initial configuration, `depth` levels, every (entry, op) at
 /// every configuration. New configurations (globally) get the is_exec/is_readonly check.
 fn explore_memfs(slot: usize, agg: &Agg, init: &Tree, ops: &[Op], depth: u32, states: &StateSet, c: &Counters) {
-    let fs0 = match catch_unwind(AssertUnwindSafe(|| materialize_memfs(init, "/"))) {
+    let stale = STALE.with(|x| x.get());
+    let part = if stale { "memfs-tree-stale" } else { "memfs-tree" };
+    let fs0 = match catch_unwind(AssertUnwindSafe(|| if stale { materialize_memfs_stale(init).map(|x| x.expect("stale variant exists")) } else { materialize_memfs(init, "/") })) {
         Ok(Ok(fs)) => fs,
         Ok(Err(e)) => {
             c.setup_failed.fetch_add(1, Ordering::Relaxed);
@@ -1373,7 +1422,7 @@ fn explore_memfs(slot: usize, agg: &Agg, init: &Tree, ops: &[Op], depth: u32, st
                     }
                     let (v, succ) = memfs_transition(fs, &dump, t, path, op, c);
                     if let Some(v) = v {
-                        agg.add(slot, v, || tree_case_json("memfs-tree", t, path, op));
+                        agg.add(slot, v, || tree_case_json(part, t, path, op));
                     }
                     if let Some((sfs, st)) = succ {
                         let h = tree_hash(&st);
@@ -1460,6 +1509,18 @@ fn memfs_trees(ctx: &Ctx, c: &Counters, agg: &Agg, states: &StateSet) -> (usize,
             explore_memfs(slot, agg, tv, if vi == 0 { &all } else { &chm }, 1, states, c);
         }
     });
+    // the same trees reached through a history that leaves the kind recorded in each link stale (only the
+    // calls that follow links can tell): chmod calls, default modes
+    let n_stale = AtomicU64::new(0);
+    par_each(ctx.threads, &trees, |slot, _i, t| {
+        if matches!(materialize_memfs_stale(t), Ok(Some(_))) {
+            n_stale.fetch_add(1, Ordering::Relaxed);
+            STALE.with(|x| x.set(true));
+            explore_memfs(slot, agg, t, &chm, 1, &StateSet::new(), c);
+            STALE.with(|x| x.set(false));
+        }
+    });
+    c.stale_trees.store(n_stale.load(Ordering::Relaxed), Ordering::Relaxed);
     // depth-bounded closure: configurations reached by one call are expanded again
     let small_n = ctx.tier.pick(2, 4);
     let small: Vec<&Tree> = trees.iter().filter(|t| !t.nodes.is_empty() && t.nodes.len() <= small_n).collect();
@@ -1654,6 +1715,7 @@ pub fn run(ctx: &Ctx) -> i32 {
         transitions: AtomicU64::new(0),
         setup_failed: AtomicU64::new(0),
         lenient: AtomicU64::new(0),
+        stale_trees: AtomicU64::new(0),
     };
     let states = StateSet::new();
 
@@ -1778,6 +1840,7 @@ pub fn run(ctx: &Ctx) -> i32 {
         ("stdfs_configurations_distinct_per_initial_configuration_summed", J::i(g.c("states"))),
         ("stdfs_ran", J::Bool(is_root && g.c("stdfs_skipped_not_root") == 0)),
         ("order_dependent_or_undocumented_transitions_held_to_weak_check", J::i(c.lenient.load(Ordering::Relaxed))),
+        ("memfs_trees_also_run_with_stale_link_kinds", J::i(c.stale_trees.load(Ordering::Relaxed))),
         ("setup_failed", J::i(c.setup_failed.load(Ordering::Relaxed))),
         ("wall_split_s", J::s(format!("memfs trees {:.1}, stdfs {:.1}, grammar {:.1}, malformed {:.1}", t_trees, t_stdfs, t_grammar, t_malformed))),
     ]);
@@ -1828,6 +1891,7 @@ fn replay(ctx: &Ctx, p: &std::path::Path) -> i32 {
         transitions: AtomicU64::new(0),
         setup_failed: AtomicU64::new(0),
         lenient: AtomicU64::new(0),
+        stale_trees: AtomicU64::new(0),
     };
     let verdict: Option<Verdict> = match part {
         "sym" => {
@@ -1861,7 +1925,7 @@ fn replay(ctx: &Ctx, p: &std::path::Path) -> i32 {
             let m = case.get("mode").and_then(|x| x.as_i64()).expect("mode") as u32;
             build_fixture(k, m).err().map(|e| Verdict { sig: "fixture".into(), detail: e })
         },
-        "memfs-tree" | "stdfs-tree" | "setup" | "memfs-query" | "stdfs-query" => {
+        "memfs-tree" | "memfs-tree-stale" | "stdfs-tree" | "setup" | "memfs-query" | "stdfs-query" => {
             let t = tree_from_json(case.get("tree").expect("tree")).expect("tree json");
             let path = case.get("path").and_then(|x| x.as_str()).unwrap_or("").to_string();
             let op = case.get("call").and_then(Op::from_json);
@@ -1885,7 +1949,8 @@ fn replay(ctx: &Ctx, p: &std::path::Path) -> i32 {
                     },
                 }
             } else {
-                match materialize_memfs(&t, "/") {
+                let built = if part == "memfs-tree-stale" { materialize_memfs_stale(&t).and_then(|x| x.ok_or_else(|| "no stale variant".to_string())) } else { materialize_memfs(&t, "/") };
+                match built {
                     Err(e) => Some(Verdict { sig: "memfs setup".into(), detail: e }),
                     Ok(fs) => match &op {
                         Some(op) => {
